@@ -42,7 +42,7 @@ func runC09(c *Ctx) {
 	}
 	c.Rule("C09.sorted", "walkInternalSorted and String: no callback invocation or recursive visit inside a range over a map; the keys accumulated in such a range are sorted before any other use")
 	c.Rule("C09.conditional", "internalDelete, leaf arm: f is called and deletion reported exactly on the true edge of condition(value); Delete passes a condition that is constantly true")
-	c.Rule("C09.select", "internalDelete: a leaf reached with len(subpath)==0, or with subpath == [\"*\"], is offered to the condition on every path (nothing returns before the terminal/glob test); a nil (empty) node is never offered to the condition")
+	c.Rule("C09.select", "internalDelete: a leaf reached with len(subpath)==0, or with subpath == [\"*\"], is offered to the condition on every path (nothing returns before the terminal/glob test); a leaf reached with more path left (a plain element, or a glob followed by further elements) is never offered and nothing is removed - exactly what Query reports for the same path; a nil (empty) node is never offered to the condition")
 	c.Rule("C09.prune-guard", "internalDelete: delete(children, k) only after the recursive call for k returned true; the glob arm over a branch returns 'removable' iff the branch has no children left (0 => true, 1 => false), whether or not glob elements remain; the explicit-child arm returns removable iff the map became empty; WalkDeleted / DeleteConditional store leafBranch=nil only when internalDelete reported the root removable")
 	c.Rule("C09.returned-paths", "internalDelete with retDeletedPaths set: the paths reported by a child's visit can reach the accumulated result whether or not the child itself became removable (glob arm), and the explicit-child arm returns a non-nil list taken from the child's visit")
 	c.Rule("C09.walk-root", "Walk and WalkSorted (their unexported helpers inlined): a leaf stored at the root is handed to the visitor exactly once with its own value, an empty root is not visited")
@@ -96,6 +96,11 @@ func runC09(c *Ctx) {
 				if a.V == subP {
 					return "SUBLEN"
 				}
+				if sl, ok := a.V.(*ssa.Slice); ok && sl.High == nil && sl.Low != nil {
+					if k, okc := constInt(sl.Low); okc && k == 1 && e.Resolve(st, RV{a.F, sl.X}).V == subP {
+						return "SUBLEN-1"
+					}
+				}
 				if isNilConst(a.V) {
 					return "NILLEN"
 				}
@@ -142,6 +147,9 @@ func runC09(c *Ctx) {
 	isRec := func(ev *Ev) bool { return ev.Label == "call:"+fnName(id) }
 	isDel := func(ev *Ev) bool { return ev.Label == "builtin:delete" }
 	run := func(b map[string]bool, i map[string]int64, mv int) *PPA {
+		if v, ok := i["SUBLEN"]; ok {
+			i["SUBLEN-1"] = v - 1
+		}
 		at := &Atoms{Class: cls, Bool: b, Int: i}
 		e := &PPA{Cond: at.Cond, MaxVisits: mv, Watch: func(ev *Ev) bool { return isCond(ev) || isF(ev) || isRec(ev) || isDel(ev) }}
 		e.Run(id)
@@ -154,7 +162,7 @@ func runC09(c *Ctx) {
 		name   string
 		sublen int64
 		glob   bool
-	}{{"leaf, path exhausted", 0, false}, {"leaf, one trailing glob", 1, true}} {
+	}{{"leaf, path exhausted", 0, false}, {"leaf, one trailing glob", 1, true}, {"leaf, glob followed by more elements (the path continues past the leaf)", 2, true}, {"leaf, plain element left (the path continues past the leaf)", 1, false}} {
 		for _, cond := range []bool{true, false} {
 			e := run(map[string]bool{"GLOB": sc.glob, "ISBRANCH": false, "EMPTY": false, "COND": cond}, map[string]int64{"SUBLEN": sc.sublen}, 2)
 			nP := 0
@@ -174,6 +182,10 @@ func runC09(c *Ctx) {
 					want = 1
 				}
 				ok := called && ret == want && p.Has(isF) == cond
+				if strings.Contains(sc.name, "continues past the leaf") {
+					// deleting through a leaf removes nothing, whatever the condition says
+					ok = !called && ret == 0 && !p.Has(isF)
+				}
 				c.Check(ok, "C09.select", fnName(id), fmt.Sprintf("%s, condition=%v", sc.name, cond), P.Pos(id.Pos()), fmt.Sprintf("offered to the condition=%v removed=%d callback=%v; path: %s", called, ret, p.Has(isF), p.String()))
 			}
 			c.Floor("C09.select/"+sc.name, nP, 1)
